@@ -117,10 +117,6 @@ func cmdCheck(args []string) int {
 		}
 		units = append(units, p.encodeUnit(c))
 	}
-	dir, _ := os.MkdirTemp("/var/tmp", "govc-")
-	defer os.RemoveAll(dir)
-	solveAll(units, dir, timeout, 16, *tier == "thorough")
-
 	claims := loadClaims(*prop)
 	known := loadKnown()
 	kfByObl := map[string]KnownFinding{}
@@ -129,6 +125,20 @@ func cmdCheck(args []string) int {
 			kfByObl[k.Obligation] = k
 		}
 	}
+	for _, u := range units {
+		for _, o := range u.Obls {
+			if _, ok := kfByObl[o.ID]; ok {
+				o.Quick = true
+			}
+			if _, ok := claims.Unclaimed[o.ID]; ok && !*writeClaims {
+				o.Quick = true
+			}
+		}
+	}
+	dir, _ := os.MkdirTemp("/var/tmp", "govc-")
+	defer os.RemoveAll(dir)
+	solveAll(units, dir, timeout, 16, *tier == "thorough")
+
 	claimed := map[string]bool{}
 	for _, id := range claims.Claimed {
 		claimed[id] = true
